@@ -162,6 +162,9 @@ inline DescT<lib::MessageHeader> descMessageHeader()
     VF_FIELD("flag.diOnIf", 2, 4, 1, o.setCommonFlag(CF::diOnIf, v != 0), o.getCommonFlag(CF::diOnIf));
     VF_FIELD("flag.overflow", 2, 5, 1, o.setCommonFlag(CF::overflow, v != 0), o.getCommonFlag(CF::overflow));
     VF_FIELD("flag.errorInPayload", 2, 6, 1, o.setCommonFlag(CF::errorInPayload, v != 0), o.getCommonFlag(CF::errorInPayload));
+    // the two-bit enumerator CommonFlags::seg used as a flag mask: setting sets both bits, clearing clears both
+    d.fields.push_back({"flag.seg(both bits)", 2, 2, 2, [](Obj& o, uint64_t v) { o.setCommonFlag(CF::seg, v != 0); },
+                        [](const Obj& o) -> uint64_t { return (o.getCommonFlags() >> 2) & 3u; }, {0, 3}});
     VF_FIELD("payloadType", 3, 0, 8, o.setPayloadType(static_cast<uint8_t>(v)), o.getPayloadType());
     VF_FIELD("payloadLength", 4, 0, 16, o.setPayloadLength(static_cast<uint16_t>(v)), o.getPayloadLength());
     d.fromImage = headerFromImage<Obj>;
@@ -194,6 +197,8 @@ inline DescT<lib::Packet> descPacket()
     VF_FIELD("flag.diOnIf", 7, 4, 1, o.setCommonFlag(CF::diOnIf, v != 0), o.getCommonFlag(CF::diOnIf));
     VF_FIELD("flag.overflow", 7, 5, 1, o.setCommonFlag(CF::overflow, v != 0), o.getCommonFlag(CF::overflow));
     VF_FIELD("flag.errorInPayload", 7, 6, 1, o.setCommonFlag(CF::errorInPayload, v != 0), o.getCommonFlag(CF::errorInPayload));
+    d.fields.push_back({"flag.seg(both bits)", 7, 2, 2, [](Obj& o, uint64_t v) { o.setCommonFlag(CF::seg, v != 0); },
+                        [](const Obj& o) -> uint64_t { return (o.getCommonFlags() >> 2) & 3u; }, {0, 3}});
     VF_FIELD("segmentType", 8, 2, 2, o.setSegmentType(static_cast<lib::MessageHeader::SegmentType>(v << 2)), (static_cast<unsigned>(o.getSegmentType()) >> 2));
     d.fromImage = [](const Bytes& image) {
         // prior state through the API: a packet with a payload and members taken from the image bytes
